@@ -8,7 +8,7 @@ ID = 'C16'
 LEVEL = 'exploration'
 EXHAUSTIVE = False
 RULE = ('exhaustive over every integer difference in [-20000, 20000] (quick) / [-200000, 200000] (thorough) '
-        'plus Hypothesis integers of arbitrary magnitude (up to 10**5000, and around every power of two up to 2**1100 - beyond what a float holds) and pairs for the two-score form (independent, equal, opposite and near-opposite scores); each exhaustive range is walked a second time in descending strided order; '
+        'plus Hypothesis integers of arbitrary magnitude (up to 10**5000; every value within 3 of a power of two up to 2**1100 - beyond what a float holds - completely) and pairs for the two-score form (independent, equal, opposite and near-opposite scores); each exhaustive range is walked a second time in descending strided order; '
         'oracle = WBF scale bands in vf/model/imps.py, range [-24,24], oddness f(-d) = -f(d), monotonicity on '
         'adjacent integers (exhaustive range) and on generated ordered pairs, score_to_imp(a,b) = f(a+b). '
         'Non-trivial = difference that is not a multiple of 10, or |d| > 5000, or within 1 of a scale threshold; '
@@ -21,7 +21,7 @@ def plan(tier):
     step = (2 * hi + 1 + 7) // 8
     sh = [{'kind': 'range', 'lo': -hi + i * step, 'hi': min(hi, -hi + (i + 1) * step)} for i in range(8)]
     n = 4000 if tier == 'quick' else 100000
-    sh += [{'kind': 'big', 'n': n}, {'kind': 'pairs', 'n': n}, {'kind': 'mono', 'n': n}]
+    sh += [{'kind': 'big', 'n': n}, {'kind': 'pairs', 'n': n}, {'kind': 'mono', 'n': n}, {'kind': 'pow2'}]
     sh += [{'kind': 'concurrent', 'shard': i, 'of': 2} for i in range(2)]
     return sh
 
@@ -104,6 +104,21 @@ def run_shard(spec, seed, tier, stats):
         except Violation as v:
             return [v]
         return []
+    if k == 'pow2':
+        # every machine-integer boundary, completely: +-(2**k + j) for k = 0..1100, j = -3..3, as a difference, as the sum of two
+        # halves and as a neighbour pair for monotonicity
+        for e in range(0, 1101):
+            for j in range(-3, 4):
+                for sgn in (1, -1):
+                    d = sgn * (2 ** e + j)
+                    try:
+                        _one(d, stats)
+                        _pair(d // 2, d - d // 2, stats)
+                        _mono(d - 1, d, stats)
+                    except Violation as v:
+                        fails.setdefault(v.clause, v)
+        stats.cls('machine-integer boundaries +-(2**k + j), k <= 1100, |j| <= 3: complete')
+        return list(fails.values())
     if k == 'range':
         from bridge_env.score import point_difference_to_imps as f
         prev = None
